@@ -3,7 +3,12 @@ package main
 import (
 	"fmt"
 	"math/rand"
+	"sort"
 	"strings"
+	"time"
+
+	"github.com/simpleiot/simpleiot/client"
+	"github.com/simpleiot/simpleiot/data"
 )
 
 func init() {
@@ -18,7 +23,88 @@ func init() {
 // the BUS on an in-process instance with a subscription to up.> (the machinery of C06): the reply of every request and
 // everything rebroadcast for the final one are observed, so that a refused write that is rebroadcast anyway, or a handler
 // that stops answering, is seen at the place subscribers see it.
+// c05MoveRun: "M=<setup>|mv:<id>:<old>:<new>" or "...|mr:<id>:<new>": the setup over the bus, then the REAL client.MoveNode /
+// client.MirrorNode (the way the UI and the API move and mirror nodes). Observation:
+//   <setup results>,<ok|err> ## <subjects rebroadcast for the move> ## <parent=tombstone,... of every edge of the node afterwards>
+func c05MoveRun(c string) string {
+	if c06Srv == nil {
+		c06Init()
+	}
+	c06Case++
+	prefix := fmt.Sprintf("m%d-", c06Case)
+	nc := c06Srv.nc
+	parts := strings.Split(strings.Fields(c)[0], "|")
+	var res []string
+	for _, op := range strings.Split(parts[0], ";") {
+		res = append(res, c06Exec(nc, prefix, op))
+	}
+	quiesce := func(tag string) {
+		s := prefix + "zz" + tag
+		_ = client.SendEdgePoints(nc, s, "R", parseSpts(fmt.Sprintf("%s,-,0,%s,%d,0,-,-", hxs("nodeType"), hxs("device"), 1)), true)
+		_ = client.SendNodePoints(nc, s, parseSpts(fmt.Sprintf("%s,-,0,-,%d,0,-,-", hxs("value"), 2)), true)
+		deadline := time.Now().Add(8 * time.Second)
+		for time.Now().Before(deadline) {
+			c06Mu.Lock()
+			n := 0
+			for _, m := range c06Msgs {
+				if m == "up."+s+"."+s+".R" || m == "up."+s+"."+s {
+					n++
+				}
+			}
+			c06Mu.Unlock()
+			if n >= 2 {
+				return
+			}
+			time.Sleep(200 * time.Microsecond)
+		}
+	}
+	quiesce("a")
+	c06Mu.Lock()
+	c06Msgs, c06Bodies = nil, nil
+	c06Mu.Unlock()
+	f := strings.Split(parts[1], ":")
+	id := c06ID(prefix, string(unhx(f[1])))
+	var err error
+	if f[0] == "mv" {
+		err = client.MoveNode(nc, id, c06ID(prefix, string(unhx(f[2]))), c06ID(prefix, string(unhx(f[3]))), "")
+	} else {
+		err = client.MirrorNode(nc, id, c06ID(prefix, string(unhx(f[2]))), "")
+	}
+	if err != nil {
+		res = append(res, "err")
+	} else {
+		res = append(res, "ok")
+	}
+	quiesce("b")
+	c06Mu.Lock()
+	seen := map[string]bool{}
+	for _, m := range c06Msgs {
+		if !strings.Contains(m, prefix+"zz") {
+			seen[strings.ReplaceAll(m, prefix, "")] = true
+		}
+	}
+	c06Msgs, c06Bodies = nil, nil
+	c06Mu.Unlock()
+	var subs []string
+	for k := range seen {
+		subs = append(subs, k)
+	}
+	sort.Strings(subs)
+	var edges []string
+	if ns, err := client.GetNodes(nc, "all", id, "", true); err == nil {
+		for _, n := range ns {
+			tp, _ := n.EdgePoints.Find(data.PointTypeTombstone, "")
+			edges = append(edges, hxs(strings.ReplaceAll(n.Parent, prefix, ""))+"="+valStr(tp.Value))
+		}
+	}
+	sort.Strings(edges)
+	return strings.Join(res, ",") + " ## " + joinListSep(subs, ",") + " ## " + joinListSep(edges, ",")
+}
+
 func c05Run(c string) string {
+	if strings.HasPrefix(c, "M=") {
+		return c05MoveRun(strings.TrimPrefix(c, "M="))
+	}
 	if strings.HasPrefix(c, "B=") {
 		if c06Srv == nil {
 			c06Init()
@@ -36,6 +122,10 @@ func c05Gen(r *rand.Rand, n int, tier string) []string {
 	for i := 0; i < n; i++ {
 		if i%5 == 4 {
 			out = append(out, c05BusCase(r))
+			continue
+		}
+		if i%10 == 3 {
+			out = append(out, c05MoveCase(r))
 			continue
 		}
 		clock := int64(100)
@@ -139,4 +229,27 @@ func c05BusCase(r *rand.Rand) string {
 		final = "ep:" + hxs("c") + ":" + hxs("b") + ":" + val("4611686018427387904")
 	}
 	return "B=" + strings.Join(ops, ";") + "|" + final
+}
+
+// c05MoveCase: the chain R -> a -> b -> c plus d under a, then one move or mirror through the client library: below
+// its own descendant or itself (must be refused and change nothing), or somewhere legal.
+func c05MoveCase(r *rand.Rand) string {
+	clock := int64(100)
+	tick := func() int64 { clock += 2; return clock }
+	nt := func() string {
+		return fmt.Sprintf("%s,-,0,-,%d,0,-,-+%s,-,0,%s,%d,0,-,-", hxs("tombstone"), tick(), hxs("nodeType"), hxs("device"), tick())
+	}
+	chain := []string{"R", "a", "b", "c"}
+	var ops []string
+	for j := 1; j < len(chain); j++ {
+		ops = append(ops, "ep:"+hxs(chain[j])+":"+hxs(chain[j-1])+":"+nt())
+	}
+	ops = append(ops, "ep:"+hxs("d")+":"+hxs("a")+":"+nt())
+	parent := map[string]string{"a": "R", "b": "a", "c": "b", "d": "a"}
+	id := pick(r, []string{"a", "b", "c", "d", "a", "b"})
+	to := pick(r, []string{"a", "b", "c", "d", "R"})
+	if r.Intn(2) == 0 {
+		return "M=" + strings.Join(ops, ";") + "|mv:" + hxs(id) + ":" + hxs(parent[id]) + ":" + hxs(to)
+	}
+	return "M=" + strings.Join(ops, ";") + "|mr:" + hxs(id) + ":" + hxs(to)
 }
